@@ -24,7 +24,7 @@ def model_runs(tier):
         return [{"module": "MC_Grad", "constants": {"Family": '"c02"'}}]
     return [{"module": "MC_Grad", "constants": {"Family": '"c02"', "RSet": "{2, 3}", "PSet": "{3, 4}", "MaskSet": "{1, 2, 3, 4}",
                                                 "DesSet": "{1, 2, 3, 4}", "SaltSet": "{0, 1}", "EstSet": "{1, 2, 3, 4}",
-                                                "FltSet": "{1, 2, 3, 4, 5, 6}", "WSet": "{1, 2, 3}"}, "heap": "12g", "timeout": 7200}]
+                                                "FltSet": "{1, 2, 3, 4, 5, 6}", "WSet": "{1, 2, 3, 4}"}, "heap": "12g", "timeout": 7200}]
 
 
 def extra_scenarios(tier, seed):
